@@ -27,7 +27,7 @@ HARNESSES = [
 import importlib.util as _ilu
 _rp = _ilu.spec_from_file_location('realspec', os.path.join(os.path.dirname(os.path.abspath(__file__)), '..', 'real', 'spec.py'))
 _real = _ilu.module_from_spec(_rp); _rp.loader.exec_module(_real)
-HARNESSES += _real.CMP_HARNESSES
+HARNESSES += _real.CMP_HARNESSES + _real.VBKCMP_HARNESSES
 EXPLANATION = 'The real scoring function is executed on symbolic publication profiles and compared with an independent reference on every path.'
 ASSUMPTIONS = ['the reference scorer of DESIGN.md appendix A is the protocol definition (pre-validated against the unchanged tree on 1.4 M profiles)',
                'which endorsements count (ReducedPublicationView on real trees) is covered through the F-TT harness and, on the real ALT tree, by the one-keystone scenarios of h_realcmp and h_realsp_unequal']
